@@ -97,6 +97,9 @@ type gen struct {
 	nt       bool
 	hadRefs  bool
 	nFlushes int
+	batching bool     // loop mode: callbacks are collected into the current LUpdates batch
+	batch    []string // Coq text of the callbacks of the current batch
+	batchCbs []cbk    // the callbacks themselves (applied later, on the loop goroutine)
 }
 
 func (g *gen) randomValue(k int) value {
@@ -143,8 +146,13 @@ func (g *gen) randomKind() int {
 func (g *gen) do(c cbk) {
 	c.flav = g.r.intn(8)
 	g.w.apply(c)
-	applyCb(g.es, c)
-	g.steps = append(g.steps, "ICb ("+c.coq()+")")
+	if g.batching {
+		g.batch = append(g.batch, c.coq())
+		g.batchCbs = append(g.batchCbs, c)
+	} else {
+		applyCb(g.es, c)
+		g.steps = append(g.steps, "ICb ("+c.coq()+")")
+	}
 	g.keys = append(g.keys, c.coq())
 	g.sample = append(g.sample, c.coq())
 	if c.op == "upd" && len(c.v.refs) > 0 {
@@ -374,3 +382,5 @@ func (g *gen) retargetScenario() {
 	g.flush()
 	g.nt = true
 }
+
+func sortStrings(xs []string) { sort.Strings(xs) }
